@@ -20,6 +20,7 @@ mod c03;
 mod c08;
 mod c11;
 mod c07;
+mod c13;
 
 use std::path::PathBuf;
 
@@ -88,6 +89,7 @@ fn main() {
         "c08" => c08::run(&args),
         "c11" => c11::run(&args),
         "c07" => c07::run(&args),
+        "c13" => c13::run(&args),
         "parse" => c07::parse_command(&args.extra[0]),
         "c06" => c06::run(&args),
         "c16" => c16::run(&args),
